@@ -54,7 +54,8 @@ DChunk(w, curN) ==         \* "ap.p.chunk": copy as much as fits
   /\ cur' = [cur EXCEPT !.n = @ + w] /\ curN = cur'.n /\ remain' = remain - w /\ copied' = copied + w
   /\ UNCHANGED <<full, freeN, buffNum, stop, inHand, handLo, hold, inCb, appender, pend, off, entered, delivered, doneBytes, atCleanup, cbSize>>
 DPushFull(n, fullLen) ==   \* "ap.p.push_full"
-  /\ appender # 0 /\ cur.has /\ cur.n = Size /\ n = Size /\ full' = Append(full, [lo |-> cur.lo, n |-> cur.n]) /\ fullLen = Len(full') /\ cur' = NoCur
+  \* (the code hands a buffer over when it is full; handing over a partly filled one earlier only changes block boundaries, which C10 leaves free)
+  /\ appender # 0 /\ cur.has /\ cur.n > 0 /\ n = cur.n /\ full' = Append(full, [lo |-> cur.lo, n |-> cur.n]) /\ fullLen = Len(full') /\ cur' = NoCur
   /\ UNCHANGED <<freeN, buffNum, stop, inHand, handLo, hold, inCb, appender, remain, pend, off, entered, copied, delivered, doneBytes, atCleanup, cbSize>>
 DExit(p, len) ==           \* "ap.p.exit"
   /\ appender = p /\ remain = 0 /\ (cur.has => cur.n < Size) /\ appender' = 0 /\ doneBytes' = doneBytes + len
